@@ -38,6 +38,12 @@ def gen(rng, tier, quarantine=()):
     ops = []
     if rng.random() < 0.3:
         ops.append({"op": "clock", "mode": "slow"})
+    if "no-inplace" not in quarantine and rng.random() < 0.3:
+        # tooled.inplace swaps the code of the function too (and keeps a helper copy)
+        q = rng.choice([u for u in universe if "." not in u and u != "mk"] or ["top"])
+        if q not in universe:
+            universe.append(q)
+        ops.append({"op": "tool", "fn": q, "how": "inplace"})
     nprobes = rng.randint(1, 4)
     for i in range(nprobes):
         q = rng.choice(universe)
